@@ -5,6 +5,7 @@ import copy
 import json
 
 import common as C
+import fault_probes as FP
 import engine_common as E
 import engine_extract
 from engine_common import M, seq
@@ -379,12 +380,16 @@ def dispatcher_probe():
     return results
 
 
+PROBE_JUDGES = [FP.nothing_left_behind]
+
+
 def run(ctx, model=True):
     enum = enumeration()
     if not (ctx.tier == "thorough" or ctx.deep):
         enum = ctx.rng.sample(enum, min(len(enum), 60))
     res = E.run_property(ctx, "C06", oracle, gen=gen, quick=100, thorough=3000, model=model, extra_scenarios=enum)
     res.rule += " | C06: (a) exhaustive family: a fixed plan with stage / set / monitor (with and without try-finally unstage) x device behaviour {plain, stop raises, unstage raises, set pending} x EVERY arrival index x {abort, stop, halt, pause+each decision, suspend} (all in the thorough tier, a sample of 60 in quick); (b) random plans staging 0-4 devices in any order, sets with groups, monitors, failures of set / stop / stage / unstage / trigger / read, plan errors, forgotten unstage, 0-3 requests, every post-pause decision"
+    FP.run_probes(ctx, res, PROBE_JUDGES, ["close", "leftover-stage"], 30, 600)
     try:
         res.facts["double_staging_ledger(stage,stage,raise)"] = double_staging_probe()
         res.notes.append(f"double staging (RE._staged is a set): ledger of d1 for plan [stage d1, stage d1, raise] = {res.facts['double_staging_ledger(stage,stage,raise)']}")
@@ -403,6 +408,8 @@ def run_impl_only(ctx):
 
 
 def replay(ctx, data):
+    if FP.is_probe(data):
+        return FP.replay_probe(ctx, data, PROBE_JUDGES)
     case = data.get("case") or {}
     if case.get("probe") == "dispatcher":
         res = C.Result()
